@@ -20,11 +20,12 @@ pub static PROP: Prop = Prop {
     fixed: noop_fixed,
     replay: Some(replay),
     breadcrumb: false,
+    fuzz: &[Fuzz { target: "choice", choice: true, runs: 300000, max_len: 960 }],
 };
 
 fn budget(t: Tier) -> Budget {
     Budget {
-        cases: t.pick(200_000, 3_000_000),
+        cases: t.pick(3_000_000, 40_000_000),
         max_len: 240,
         shards: 16,
         dual_profile: false,
